@@ -458,6 +458,7 @@ type Lemma struct {
 	Thorough bool
 	Line     int
 	Uses     []string // other proved lemmas to instantiate as axioms (closed, quantified)
+	Induct   string   // "induction k": natural-number induction on integer parameter k (hypothesis: the lemma at k-1 when k >= 1)
 	Backends []string
 	Timeout  int
 }
@@ -582,7 +583,7 @@ func ParseContractText(data, path, pkg string) (*ContractFile, error) {
 	cf := &ContractFile{Path: path, Pkg: pkg, Funcs: map[string]*FuncContract{}, Types: map[string]*TypeDecl{}}
 	keywords := map[string]bool{"section": true, "spec": true, "func": true, "lemma": true, "type": true, "property": true, "mode": true,
 		"requires": true, "ensures": true, "modifies": true, "loop": true, "inline": true, "allow": true, "assumed": true,
-		"ghost": true, "invariant": true, "opt": true, "uses": true, "axiom": true, "thorough": true, "pure": true, "trusted": true,
+		"ghost": true, "invariant": true, "opt": true, "uses": true, "induction": true, "axiom": true, "thorough": true, "pure": true, "trusted": true,
 		"backends": true, "timeout": true, "decl": true, "opaque": true, "inline-loop": true, "at-call": true, "at-stmt": true, "impl": true}
 	var raws []rawClause
 	for i, ln := range strings.Split(data, "\n") {
@@ -926,6 +927,11 @@ func ParseContractText(data, path, pkg string) (*ContractFile, error) {
 			} else if curF != nil {
 				curF.Opts["uses"] = strings.TrimSpace(curF.Opts["uses"] + " " + strings.ReplaceAll(rc.text, ",", " "))
 			}
+		case "induction":
+			if curL == nil {
+				return nil, errf(rc, "induction outside a lemma")
+			}
+			curL.Induct = strings.TrimSpace(rc.text)
 		case "thorough":
 			if curL != nil {
 				curL.Thorough = true
